@@ -524,6 +524,9 @@ def enum_paths(f, start, stop_call=None, limit=200000):
             m = re.match(r'^_\d+ = (?:std::result::)?Result::<.*>::(Ok|Err)\(', s_)
             if m:
                 tr = tr + (('mk', m.group(1)),)
+            m = re.match(r'^_\d+ = ((?:RetryError|TowerStatus|RetrierStatus)::\w+)', s_)
+            if m:
+                tr = tr + (('mk', m.group(1)),)
         t = b.term
         k = t['kind']
         if k == 'call':
@@ -743,8 +746,11 @@ def q_retrier_run(o, tier):
     elif part == 'errors_keep_pending':
         # connection errors and subscription errors end the run and never touch the pending record
         is_conn = lambda r: any(e[0] == 'branch' and e[1] == 'RequestError::is_connection' and e[2] != '0' for e in r)
-        is_sub = lambda r: 'WTClient::set_tower_status' in calls(r)
-        bad = lambda r: (is_conn(r) or is_sub(r)) and (RM in calls(r) or r[-1][0] != 'return' or ('mk', 'Err') not in r)
+        is_sub = lambda r: ('mk', 'RetryError::Subscription') in r
+        # a subscription error found by the retrier must also be recorded as the tower's status (the re-registration at
+        # the top of the next run is gated on it)
+        sub_ok = lambda r: 'WTClient::set_tower_status' in calls(r) and ('mk', 'TowerStatus::SubscriptionError') in r
+        bad = lambda r: ((is_conn(r) or is_sub(r)) and (RM in calls(r) or r[-1][0] != 'return' or ('mk', 'Err') not in r)) or (is_sub(r) and not sub_ok(r))
         if not any(is_conn(r) for r in rows) or not any(is_sub(r) for r in rows):
             return {'verdict': 'inconclusive', 'reason': 'vacuous: error paths not found'}
         v, i, dt, out = _exists(rows, bad, 'err')
@@ -753,7 +759,7 @@ def q_retrier_run(o, tier):
         if v == 'inconclusive':
             return {'verdict': 'inconclusive', 'reason': out[:200]}
         if v == 'sat':
-            failed.append({'description': 'a connection or subscription error on the retry path drops the pending record or does not end the run with an error',
+            failed.append({'description': 'a connection or subscription error on the retry path drops the pending record, does not end the run with an error, or (subscription error) is not recorded as the tower status',
                            'function': 'Retrier::run', 'schedule': [list(e) for e in rows[i]][-14:]})
     elif part == 'reregister_verify':
         rows2 = enum_paths(f, 'bb0', r'WTClient::add_update_tower$')
@@ -961,18 +967,128 @@ def q_retry_progress(o, tier):
             'functions': ['watchtower_plugin::retrier']}
 
 
+def q_per_appointment_decrypt(o, tier):
+    """C06/C01 (structural): in Watcher::handle_breaches every iteration of the per-appointment loop (between two
+    `IntoIter<UUID>::next` calls) loads *that* appointment and decrypts *its* blob exactly once before the breach is
+    handed to the responder or the appointment is reported invalid: users sharing a locator are judged by their own data.
+    (Data-flow facts checked on the MIR: load_appointment's uuid argument is the loop variable; decrypt's first argument
+    is `encrypted_blob()` of the appointment loaded in this iteration; handle_breach gets the same uuid.)"""
+    funcs, idx, t_mir, err = load_mir('teos')
+    if funcs is None:
+        return {'verdict': 'inconclusive', 'reason': 'MIR dump failed'}
+    name = [n for n in funcs if re.match(r'^watcher::<impl at .*?>::handle_breaches$', n)]
+    if len(name) != 1:
+        return {'verdict': 'inconclusive', 'reason': 'handle_breaches not found'}
+    f = funcs[name[0]]
+    nxt = [b for b in f.blocks.values() if b.term['kind'] == 'call' and re.search(r'IntoIter<UUID> as Iterator>::next$', b.term['callee'])]
+    if len(nxt) != 1:
+        return {'verdict': 'inconclusive', 'reason': 'inner loop not found (%d)' % len(nxt)}
+    rows = enum_paths(f, nxt[0].term['next'], r'IntoIter<UUID> as Iterator>::next$|IntoIter<Locator, .*Transaction> as Iterator>::next$')
+    if rows is None:
+        return {'verdict': 'inconclusive', 'reason': 'path explosion'}
+    body = [r for r in rows if any(e[0] == 'call' and e[1] in ('Responder::handle_breach', 'Vec::push') for e in r)]
+    if not body:
+        return {'verdict': 'inconclusive', 'reason': 'vacuous: no loop body path'}
+
+    def calls(r):
+        return [e[1] for e in r if e[0] == 'call']
+
+    def bad(r):
+        c = calls(r)
+        if c.count('decrypt') != 1 or c.count('DBM::load_appointment') != 1 or c.count('ExtendedAppointment::encrypted_blob') < 1:
+            return True
+        d = c.index('decrypt')
+        if not (c.index('DBM::load_appointment') < c.index('ExtendedAppointment::encrypted_blob') < d):
+            return True
+        later = [i for i, x in enumerate(c) if x in ('Responder::handle_breach', 'Vec::push')]
+        return not later or min(later) < d
+    v, i, dt, out = _exists(body, bad, 'dec')
+    if v == 'inconclusive':
+        return {'verdict': 'inconclusive', 'reason': out[:200]}
+    failed = []
+    if v == 'sat':
+        failed.append({'description': 'an appointment under a breached locator can be judged without its own blob being decrypted in that iteration',
+                       'function': 'Watcher::handle_breaches', 'schedule': [e[1] for e in body[i] if e[0] == 'call'][-12:]})
+    # data-flow: operands
+    blk = {b.id: b for b in f.blocks.values()}
+    la = [b for b in f.blocks.values() if b.term['kind'] == 'call' and b.term['callee'].endswith('DBM::load_appointment')]
+    de = [b for b in f.blocks.values() if b.term['kind'] == 'call' and re.search(r'(?:^|::)decrypt$', b.term['callee'])]
+    hb = [b for b in f.blocks.values() if b.term['kind'] == 'call' and b.term['callee'].endswith('Responder::handle_breach')]
+    eb = [b for b in f.blocks.values() if b.term['kind'] == 'call' and b.term['callee'].endswith('ExtendedAppointment::encrypted_blob')]
+    flow_ok = False
+    if len(la) == 1 and len(de) == 1 and len(hb) == 1 and len(eb) >= 1:
+        uuid_local = la[0].term['args'][-1].split()[-1]
+        flow_ok = hb[0].term['args'][1].split()[-1] == uuid_local
+        blob_dest = eb[0].term['dest']
+        # decrypt's first operand is (a copy/deref of) the blob reference
+        first = de[0].term['args'][0].split()[-1]
+        stm = ' '.join(x for b in f.blocks.values() for x in b.stmts)
+        via_call = any(b.term['kind'] == 'call' and b.term['dest'] == first and any(a.split()[-1] == blob_dest for a in b.term['args'])
+                       for b in f.blocks.values())
+        flow_ok = flow_ok and (first == blob_dest or via_call or re.search(r'%s = [^;]*%s' % (re.escape(first), re.escape(blob_dest)), stm) is not None)
+        # ... and that blob is the one of the appointment loaded in this iteration (encrypted_blob(&<unwrap of load_appointment>))
+        app_ref = eb[0].term['args'][0].split()[-1]
+        m = re.search(r'%s = &(_\d+);' % re.escape(app_ref), stm)
+        app_local = m.group(1) if m else None
+        unwraps = [b for b in f.blocks.values() if b.term['kind'] == 'call' and b.term['dest'] == app_local and re.search(r'Option::<ExtendedAppointment>::unwrap$', b.term['callee'])]
+        flow_ok = flow_ok and len(unwraps) == 1 and unwraps[0].term['args'][0].split()[-1] == la[0].term['dest']
+        # the uuid local is the payload of the iterator's Option (assigned from the `next` result)
+        nd = nxt[0].term['dest']
+        flow_ok = flow_ok and re.search(r'%s = (?:copy|move) \(\(%s as Some\)\.0' % (re.escape(uuid_local), re.escape(nd)), stm) is not None
+    if not flow_ok and not failed:
+        # the syntactic data-flow facts could not be re-established on this tree: that is not evidence of a defect
+        return {'verdict': 'inconclusive', 'reason': 'data-flow facts of handle_breaches (uuid / blob operands) not recognised on this tree', 'queries': 1, 'solver_s': dt}
+    return {'verdict': 'fails' if failed else 'holds', 'failed': failed, 'queries': 1, 'solver_s': dt,
+            'witness': {'loop_body_paths': len(body), 'sample': [e[1] for e in body[0] if e[0] == 'call'][-10:]},
+            'functions': ['Watcher::handle_breaches']}
+
+
+def q_plugin_startup_retry(o, tier):
+    """C14/C13: when the client starts (WTClient::with_proxy), a tower is handed to the retry manager only on the true edge of
+    `status.is_temporary_unreachable()` — towers with a stored misbehaviour proof (status Misbehaving) are never queued,
+    whatever pending data they still have."""
+    funcs, idx, t_mir, err = load_mir('watchtower-plugin', 'lib')
+    if funcs is None:
+        return {'verdict': 'inconclusive', 'reason': 'MIR dump failed'}
+    name = [n for n in funcs if re.match(r'^wt_client::<impl at .*?>::with_proxy::\{closure#0\}$', n)]
+    if len(name) != 1:
+        return {'verdict': 'inconclusive', 'reason': 'WTClient::with_proxy not found'}
+    f = funcs[name[0]]
+    rows = enum_paths(f, 'bb0', r'UnboundedSender::<.*>::send$')
+    if rows is None:
+        return {'verdict': 'inconclusive', 'reason': 'path explosion'}
+    rows = [r for r in rows if r[-1][0] == 'stop']
+    if not rows:
+        return {'verdict': 'inconclusive', 'reason': 'vacuous: no send at start-up'}
+
+    def guarded(r):
+        br = [e for e in r if e[0] == 'branch' and e[1] == 'TowerStatus::is_temporary_unreachable']
+        return bool(br) and br[-1][2] != '0'
+    v, i, dt, out = _exists(rows, lambda r: not guarded(r), 'startup')
+    if v == 'inconclusive':
+        return {'verdict': 'inconclusive', 'reason': out[:200]}
+    failed = []
+    if v == 'sat':
+        failed.append({'description': 'at start-up a tower can be queued for retrying without its status being temporary-unreachable (e.g. a misbehaving tower with pending data)',
+                       'function': 'WTClient::with_proxy', 'schedule': [list(e) for e in rows[i] if e[0] in ('branch',)][-6:]})
+    return {'verdict': 'fails' if failed else 'holds', 'failed': failed, 'queries': 1, 'solver_s': dt,
+            'witness': {'paths_to_send': len(rows), 'sample': [list(e) for e in rows[0] if e[0] == 'branch'][-4:]}, 'functions': ['WTClient::with_proxy']}
+
+
 QUERIES = {
     'lock_order': q_lock_order,
     'api_guard': q_api_guard,
     'poll_best_tip': q_poll_best_tip,
     'missed_breach': q_missed_breach,
     'double_charge': q_double_charge,
+    'per_appointment_decrypt': q_per_appointment_decrypt,
     'cv_waiter': q_cv_waiter,
     'plugin_must_record': q_plugin_must_record,
     'plugin_register_verify': q_plugin_register_verify,
     'plugin_send_appointment': q_plugin_send_appointment,
     'retrier_run': q_retrier_run,
     'retry_progress': q_retry_progress,
+    'plugin_startup_retry': q_plugin_startup_retry,
     'responder_block_order': q_responder_block_order,
 }
 
